@@ -423,7 +423,7 @@ theorem C17_complete_settings_concrete (E : Env) (fuel : Nat) (single : Bool) (i
   rw [complete_own _ _ q _ _ k hc2 hk, lookup_merge_leaf k _ _ hg.1 hg.2]
   have hl := C17_layer_order E fuel single [(relKey (.node i (some h) choices) q, q.info.pdcfs)] q k hk hko hm hcfg hleaf hf
   have hfl : filesOf [(relKey (.node i (some h) choices) q, q.info.pdcfs)] [] =
-      q.info.pdcfs.map (narrow (relKey (.node i (some h) choices) q)) := by simp [filesOf]
+      q.info.pdcfs.map (narrow (relKey (.node i (some h) choices) q)) := by simp [filesOf, lastEntry]
   rw [hfl] at hl
   show (match lookup k (secOf (lookup n cfg)) with
     | some v => some v
@@ -455,32 +455,40 @@ def fitP : P := .node (mkInfo ["fit"] [("alpha", .int 1)] ["alpha"] [] [d1]) .no
 def rootP : P := .node (mkInfo [] [("subcommand", .none)] [] [d1] []) (some ⟨"subcommand", true⟩) [("fit", fitP)]
 def envNamesFit : Env := ⟨codes "app", [(codes "APP_SUBCOMMAND", .str "fit")], []⟩
 
-/-- open finding C17-env-named-subcommand-resets-defaults: the root's default config file gives fit.alpha = 5
-    (`get_defaults`), the variable APP_SUBCOMMAND=fit only NAMES the subcommand, but the environment layer of the root holds
-    the sub-parser's plain default alpha = 1 (the complete `parse_env` of `fit` is copied), and environment goes over
-    defaults: `_parse_defaults_and_environ` ends with fit.alpha = 1 -/
-theorem C17_env_named_resets_counterexample :
+/-- regression witness of fix a5d1a53 (finding C17-env-named-subcommand-resets-defaults, was open): the root's default config file
+    gives fit.alpha = 5 (`get_defaults`), the variable APP_SUBCOMMAND=fit only NAMES the subcommand: the environment layer of the
+    root holds the name and NO value for alpha (the environment-only `parse_env` of `fit` is copied: `layerEO`), so that,
+    environment over defaults, fit.alpha = 5 survives.  Before the fix the layer held fit's plain default alpha = 1 (the COMPLETE
+    `parse_env`, here `layerC … .env`, was copied) and the result was 1 -/
+theorem C17_env_named_keeps_defaults :
     lookup "alpha" (secOf (lookup "fit" (getDefaultsC true [] rootP))) = some (.int 5) ∧
-    lookup "alpha" (secOf (lookup "fit" (loadEnvC envNamesFit (layerC envNamesFit 3 true [] .env) rootP))) = some (.int 1) ∧
+    lookup "subcommand" (loadEnvC envNamesFit (layerEO envNamesFit 3 true) rootP) = some (.str "fit") ∧
+    lookup "alpha" (secOf (lookup "fit" (loadEnvC envNamesFit (layerEO envNamesFit 3 true) rootP))) = .none ∧
+    lookup "alpha" (secOf (lookup "fit"
+      (merge (loadEnvC envNamesFit (layerEO envNamesFit 3 true) rootP) (getDefaultsC true [] rootP)))) = some (.int 5) ∧
+    lookup "alpha" (secOf (lookup "fit" (layerC envNamesFit 4 true [] .env rootP))) = some (.int 5) ∧
+    -- what the code did before the fix:
     lookup "alpha" (secOf (lookup "fit"
       (merge (loadEnvC envNamesFit (layerC envNamesFit 3 true [] .env) rootP) (getDefaultsC true [] rootP)))) = some (.int 1) := by
-  refine ⟨by rfl, by rfl, by rfl⟩
+  refine ⟨by rfl, by rfl, by rfl, by rfl, by rfl, by rfl⟩
 
 def d2 : Cfg := [("fit", .sec [("gamma", .int 792)])]
 def evalP : P := .node (mkInfo ["fit", "eval"] [] [] [] []) .none []
 def fit2 : P := .node (mkInfo ["fit"] [("gamma", .int 85), ("cmd", .none)] ["gamma"] [] [d2]) (some ⟨"cmd", true⟩) [("eval", evalP)]
 def envNamesEval : Env := ⟨codes "app", [(codes "APP_FIT__CMD", .str "eval")], []⟩
 
-/-- open finding C17-env-default-config-leak: under the stack [(fit, root)] the `parse_env` of `fit` handles its own
-    subcommands with the stack [(fit, root), (eval, fit)], so the root's file narrowed to the section `fit` is also loaded
-    for the GRANDCHILD `eval`: gamma = 792, meant for `fit`, appears under fit.eval; `get_defaults` of `fit` under the same
-    stack (environment parsing off) does not do that -/
-theorem C17_default_config_leak_counterexample :
-    lookup "gamma" (secOf (lookup "eval" (layerC envNamesEval 3 true [("fit", [d2])] .env fit2))) = some (.int 792) ∧
-    lookup "eval" (layerC envNamesEval 3 true [("fit", [d2])] .dflt fit2) = .none := by
-  refine ⟨by rfl, by rfl⟩
+/-- regression witness of fix 00c879c (finding C17-env-default-config-leak, was open): under the stack [(fit, root)] the `parse_env`
+    of `fit` handles its own subcommands with the stack [(fit, root), (eval, fit)]; only the LAST entry is used now, so the root's
+    file narrowed to the section `fit` (gamma = 792, meant for `fit`) is no longer loaded for the GRANDCHILD `eval`: `fit` gets it,
+    `fit.eval` does not -/
+theorem C17_default_config_no_leak_witness :
+    lookup "gamma" (layerC envNamesEval 3 true [("fit", [d2])] .env fit2) = some (.int 792) ∧
+    lookup "cmd" (layerC envNamesEval 3 true [("fit", [d2])] .env fit2) = some (.str "eval") ∧
+    lookup "gamma" (secOf (lookup "eval" (layerC envNamesEval 3 true [("fit", [d2])] .env fit2))) = .none ∧
+    filesOf [("fit", [d2]), ("eval", [])] [] = [] := by
+  refine ⟨by rfl, by rfl, by rfl, by rfl⟩
 
-/-! ## session 2: the open findings characterised exactly, and their complements
+/-! ## session 2: the findings characterised exactly, and their complements (two of them repaired since: F50, F51)
 
 Each open finding is stated as an EXACT condition inside the model (when, and on which key, the code deviates) together
 with the complement: outside that class the sources are taken verbatim, the merged configuration is the plain precedence
@@ -630,9 +638,10 @@ theorem C17_reparse_dump_counterexample :
     finalParse (layFuel 8 true) true .dflt twoP [("cmd", .str "b"), ("b", .sec [("y", .int 5)]), ("a", .sec [("x", .int 3)])]
       = .ok [("cmd", .str "b"), ("b", .sec [("y", .int 5)])] := by rfl
 
-/-- C17-env-named-subcommand-resets-defaults, EXACT: when the subcommand variable names the subcommand `v`, the environment
-    layer of the parser holds under `v` EVERY key of the named sub-parser's complete `parse_env` — its plain option defaults
-    included — so that, environment going over defaults, no default config value for `v` survives … -/
+/-- the mechanism behind the former finding C17-env-named-subcommand-resets-defaults: when the subcommand variable names the
+    subcommand `v`, the environment layer of the parser holds under `v` EVERY key of what `penv` returns for the named sub-parser.
+    Before fix a5d1a53 `penv` was the complete `parse_env` (plain option defaults included: no default config value for `v` survived);
+    now it is the environment-only one (`layerEO`, `C17_env_only_layer`), so exactly the variables' values are carried -/
 theorem C17_env_named_copies_all (E : Env) (penv : P → Cfg) (q : P) (c0 : Cfg) (h : SubHdr) (v : String) (r : P) (k : String)
     (hs : q.sub = some h)
     (hv : lookupE (getEnvVar (prefixAt E.root (q.info.path.map codes)) (codes h.dest)) E.vals = some (.str v))
@@ -648,27 +657,35 @@ theorem C17_env_unnamed_keeps (E : Env) (penv : P → Cfg) (q : P) (c0 : Cfg)
     envSubPart E penv q c0 = c0 :=
   envSubPart_unnamed E penv q c0 hv
 
-/-- C17-env-default-config-leak, EXACT: under a `parent_parsers` stack `ctx ++ [(key, parent's files)]` the defaults of a
-    parser at one of its options are: its own files, else the parent's files narrowed to `key`, else — THE LEAK — the files of
-    the parsers further up the stack narrowed to THEIR keys (sections meant for an ancestor), else the option default … -/
-theorem C17_leak_exact (E : Env) (fuel : Nat) (single : Bool) (ctx : Ctx) (key : String) (pd : List Cfg) (r : P) (k : String)
+/-- C17-env-default-config-leak REPAIRED (fix 00c879c), for EVERY stack: under a `parent_parsers` stack `ctx ++ [(key, parent's
+    files)]` the defaults of a parser at one of its options are its own files, else the parent's files narrowed to `key`, else the
+    option default — whatever `ctx` holds further up (before the fix a third term `pickLast k (filesOf ctx [])`, sections meant for
+    an ancestor, stood between the parent's files and the option default; the hypothesis "no file further up has the key" of the
+    former `C17_no_leak` is gone) -/
+theorem C17_no_leak (E : Env) (fuel : Nat) (single : Bool) (ctx : Ctx) (key : String) (pd : List Cfg) (r : P) (k : String)
     (hk : ownKey r k) (hm : k ≠ "__default_config__")
     (hf : ∀ t ∈ filesOf (ctx ++ [(key, pd)]) r.info.dcfs, (keysOf t).Nodup ∧ leafAt k t = true) :
     lookup k (layerC E fuel single (ctx ++ [(key, pd)]) .dflt r) =
-      pickLast k r.info.dcfs (pickLast k (pd.map (narrow key)) (pickLast k (filesOf ctx []) (lookup k r.info.opts))) := by
+      pickLast k r.info.dcfs (pickLast k (pd.map (narrow key)) (lookup k r.info.opts)) := by
   have e : layerC E fuel single (ctx ++ [(key, pd)]) .dflt r = getDefaultsC single (ctx ++ [(key, pd)]) r := by
     cases fuel <;> rfl
-  rw [e, getDefaultsC_own single _ r k hk hm hf, filesOf_snoc, pickLast_append, pickLast_append]
+  rw [e, getDefaultsC_own single _ r k hk hm hf, filesOf_snoc, pickLast_append]
 
-/-- … complement: when no file further up the stack has the key (always so for the stack of the final stage, which has one
-    entry: two-level trees, environment parsing off) the value is the intended one -/
-theorem C17_no_leak (E : Env) (fuel : Nat) (single : Bool) (ctx : Ctx) (key : String) (pd : List Cfg) (r : P) (k : String)
-    (hk : ownKey r k) (hm : k ≠ "__default_config__")
-    (hf : ∀ t ∈ filesOf (ctx ++ [(key, pd)]) r.info.dcfs, (keysOf t).Nodup ∧ leafAt k t = true)
-    (habs : ∀ t ∈ filesOf ctx [], lookup k t = .none) :
-    lookup k (layerC E fuel single (ctx ++ [(key, pd)]) .dflt r) =
-      pickLast k r.info.dcfs (pickLast k (pd.map (narrow key)) (lookup k r.info.opts)) := by
-  rw [C17_leak_exact E fuel single ctx key pd r k hk hm hf, pickLast_absent k _ _ habs]
+/-- the stack above the immediate parent is irrelevant for `get_defaults` altogether -/
+theorem C17_stack_irrelevant (ctx ctx' : Ctx) (key : String) (pd own : List Cfg) :
+    filesOf (ctx ++ [(key, pd)]) own = filesOf (ctx' ++ [(key, pd)]) own := by
+  rw [filesOf_snoc, filesOf_snoc]
+
+/-- C17-env-named-subcommand-resets-defaults REPAIRED (fix a5d1a53): what the subcommand branch copies for the named sub-parser is
+    its ENVIRONMENT-ONLY `parse_env`, which at an option holds the value of that option's variable and nothing else: no option
+    default, no default config value can be carried over the parent's defaults any more -/
+theorem C17_env_only_layer (E : Env) (fuel : Nat) (single : Bool) (q : P) (k : String)
+    (hk : ownKey q k) (hko : k ∈ q.info.options)
+    (hcfg : ∀ ck, q.info.cfgKey = some ck →
+      lookupE (getEnvVar (prefixAt E.root (q.info.path.map codes)) (codes ck)) E.cfgs = .none)
+    (hleaf : ∀ v, lookupE (envVarAt E.root (q.info.path.map codes) (codes k)) E.vals = some v → v.isSec = false) :
+    lookup k (layerEO E (fuel + 1) single q) = lookupE (envName E.root (q.info.path.map codes) (codes k)) E.vals := by
+  rw [layerEO_own E fuel single q k hk hko hcfg hleaf, C17_env_names]
 
 /-! ### non-vacuity of the session-2 statements -/
 
@@ -712,13 +729,15 @@ theorem C17_reparse_dump_empty_section_counterexample :
       (merge [("eval", .sec [])] [("subcommand", .none)]) = .error (.nosub ["subcommand"]) := by
   refine ⟨by rfl, by rfl⟩
 
-/-- the environment-named witness: the layer holds the sub-parser's plain default alpha = 1 under `fit` -/
-example : lookup "alpha" (secOf (lookup "fit" (envSubPart envNamesFit (layerC envNamesFit 3 true [] .env) rootP []))) = some (.int 1) := by
-  rfl
+/-- the environment-named witness: with the environment-only layer nothing is carried for alpha; with a variable for alpha, its value -/
+example : lookup "alpha" (secOf (lookup "fit" (envSubPart envNamesFit (layerEO envNamesFit 3 true) rootP []))) = .none ∧
+    lookup "alpha" (layerEO ⟨codes "app", [(codes "APP_FIT__ALPHA", .int 7)], []⟩ 3 true fitP) = some (.int 7) := by
+  refine ⟨by rfl, by rfl⟩
 
-/-- the leak witness through `C17_leak_exact`: the file of the root, narrowed to `fit`, is the lowest-precedence term -/
-example : pickLast "gamma" [] (pickLast "gamma" ([] : List Cfg) (pickLast "gamma" (filesOf [("fit", [d2])] []) .none)) = some (.int 792) := by
-  rfl
+/-- `C17_no_leak` on the former leak witness: for `eval` under the stack [(fit, [d2]), (eval, [])] nothing is found for gamma -/
+example : pickLast "gamma" [] (pickLast "gamma" (([] : List Cfg).map (narrow "eval")) .none) = .none ∧
+    filesOf ([("fit", [d2])] ++ [("eval", [])]) [] = [] := by
+  refine ⟨by rfl, by rfl⟩
 
 /-! ## ties: the regenerated shape of the code equals the statements the model transcribes
 
@@ -731,7 +750,9 @@ theorem tie_get_subcommands :
     Jap.Gen.SubcmdShape.pickTest = Shape.pickTest ∧ Jap.Gen.SubcmdShape.pickFromEnd = false ∧ Jap.Gen.SubcmdShape.pickOffset = 0 ∧
     Jap.Gen.SubcmdShape.removeTest = Shape.removeTest ∧ Jap.Gen.SubcmdShape.removeFilter = Shape.removeFilter ∧
     Jap.Gen.SubcmdShape.singleTest = Shape.singleTest ∧ Jap.Gen.SubcmdShape.failTests = Shape.failTests ∧
-    Jap.Gen.SubcmdShape.returns = Shape.returns := ⟨rfl, rfl, rfl, rfl, rfl, rfl, rfl, rfl, rfl, rfl⟩
+    Jap.Gen.SubcmdShape.returns = Shape.returns ∧
+    Jap.Gen.SubcmdShape.nameTest = Shape.nameTest ∧ Jap.Gen.SubcmdShape.nameTestBeforeFailBlock = true :=
+  ⟨rfl, rfl, rfl, rfl, rfl, rfl, rfl, rfl, rfl, rfl, rfl, rfl⟩
 
 /-- `handle_subcommands`: which layer is computed, `merge_config(given or Namespace(), layer)` (given values first:
     `mergeLayer` is `merge given layer`), the recursion with the key prefix, the settings check before the merge (`checkSettings`) -/
